@@ -439,7 +439,10 @@ impl RenderTableRow {
             };
             // Skip any zero-width columns
             if col_width > 0 {
-                cell.col_width = Some(col_width + cell.colspan - 1);
+                // Side by side, a spanning cell also covers the borders between
+                // its columns; stacked cells are just the full width.
+                let spanned_borders = if vertical { 0 } else { cell.colspan - 1 };
+                cell.col_width = Some(col_width + spanned_borders);
                 let style = cell.style.clone();
                 result.push(RenderNode::new_styled(
                     RenderNodeInfo::TableCell(cell),
